@@ -10,7 +10,7 @@ CHECKS = {
     "C10": dict(
         technique="runtime monitor: H-sched event log (yielded/scheduled/applied rewrites of every pass) checked offline against an executable model of the scheduling specification; marker-rewrite workloads with fault injection",
         category="exploration",
-        text="Every scheduling pass observed (synthetic marker rules through processing.fix/chain: random, plus a bounded configuration space enumerated completely in the thorough tier; and every pass of the real rules inside format_code on the repository examples) is judged by the five clauses of the statement: all-or-nothing per transaction, no overlapping scheduled ranges, drops only for a permitted reason, rollback of unparsable passes, ignored lines untouched; the pass result must equal the reference splice of the scheduled rewrites. Held on the executions produced, not a proof.",
+        text="Every scheduling pass observed (synthetic marker rules through processing.fix/chain, 15 % of them with a rule that raises after it has yielded some of its rewrites: random, plus a bounded configuration space enumerated completely in the thorough tier; and every pass of the real rules inside format_code on the repository examples) is judged by the five clauses of the statement: all-or-nothing per transaction (nothing at all of a rule that raised before its generator was done), no overlapping scheduled ranges, drops only for a permitted reason, rollback of unparsable passes, ignored lines untouched; the pass result must equal the reference splice of the scheduled rewrites. Held on the executions produced, not a proof.",
         design_ref="DESIGN.md §4 C10",
         note="Trusts core.get_charnos for the ranges the scheduler sees (span correctness is C13) and Python's ast.parse as the validity judge; implicit transactions are ordered by yield position. A rollback is also judged against the plain splice of the schedule (the implementation misplacing a rewrite must not justify its own rollback).",
     ),
@@ -66,7 +66,7 @@ CHECKS = {
     "C04": dict(
         technique="runtime monitor at the API boundary in isolated worker processes: exception capture (BaseException), CPU-time budget (RLIMIT-style timers, process time), sys.monitoring RAISE events for MemoryError under a 4 GiB address-space cap (an allocation the tool swallows would otherwise leave no trace), non-whitespace hand-back check for invalid input, effect sanitizer",
         category="exploration",
-        text="format_code is called on a zoo of 49 constructs covering Python 3.12 syntax in 9 positions (first, last, without trailing newline, nested in def/class, last in an if, indented fragment with spaces and tabs), pairs of constructs, 70 adversarial constant expressions in 16 condition templates, ~120 degenerate strings (empty, BOM, NUL, unterminated, deep nesting, long lines), 700 (6000) character-level mutants, repository examples and standard-library files, under 7 option vectors. Any exception, a result that is not a string, CPU time above max(20 s, 400 s/kB), a dead worker, an effect, or an invalid input not handed back modulo whitespace is a violation.",
+        text="format_code is called on a zoo of 49 constructs covering Python 3.12 syntax in 9 positions (first, last, without trailing newline, nested in def/class, last in an if, indented fragment with spaces and tabs), pairs of constructs, 70 adversarial constant expressions in 16 condition templates, ~120 degenerate strings (empty, BOM, NUL, unterminated, deep nesting, long lines), 700 (6000) character-level mutants, repository examples and standard-library files, under 7 option vectors; 66 texts that import (star, from, plain, inside a function) from 11 hostile modules lying beside them in the worker's directory (syntax error, latin-1 bytes, a null byte, empty, BOM, __all__ = 5, a dynamic __all__, a module that raises, self- and mutually star-importing modules, a package whose sub-module is broken). Any exception, a result that is not a string, CPU time above max(20 s, 400 s/kB), a dead worker, an effect, or an invalid input not handed back modulo whitespace is a violation.",
         design_ref="DESIGN.md §4 C04",
         note="Bounded time is a CPU budget two orders of magnitude above the measured cost; wall-clock watchdogs only yield inconclusive.",
     ),
@@ -80,7 +80,7 @@ CHECKS = {
     "C05": dict(
         technique="runtime invariant at the cache hooks (every return of core.parse / core.compile_template is compared with a fresh parse / the first serialisation; caches audited after every call for attribution) + replay of requests after random call histories against one-shot fresh-interpreter references + every rule twice in a row, and again after the parsed program was evicted from the cache and the heap has moved (tie inputs, statements squeezed onto one line, small on-disk worlds for the import rules)",
         category="exploration",
-        text="160 (900) random histories of 3-14 format_code / single-rule / sub / findall calls (35% on the request's own text, other options, other inputs) are each followed by a request whose result must equal, byte for byte, the result of the same request in a fresh interpreter; each of the 85 pipeline rules is called twice in a row on ~190 inputs (repository examples, construct zoo, fixed mutation-prone texts) and must return the same text both times and the same as a fresh process; during all of it ~9M cache returns per quick run are checked for fidelity and the parse cache is audited after each call so that a corruption is attributed to the call that caused it.",
+        text="160 (900) random histories of 3-14 format_code / single-rule / sub / findall calls (35% on the request's own text, other options, other inputs) are each followed by a request whose result must equal, byte for byte, the result of the same request in a fresh interpreter; each of the 85 pipeline rules is called twice in a row on ~190 inputs (repository examples, construct zoo, fixed mutation-prone texts) and must return the same text both times and the same as a fresh process; 45 (150) sibling modules - the same text with one function made effectful, trivial or removed, formatted one after the other in both orders - and seven hand-written sibling pairs (a remembered verdict about an unchanged definition); during all of it ~9M cache returns per quick run are checked for fidelity and the parse cache is audited after each call so that a corruption is attributed to the call that caused it.",
         design_ref="DESIGN.md §4 C05",
         note="Fidelity = ast.dump(include_attributes=True) equality with a fresh ast.parse of the cache key; private attributes rules may attach to nodes are not part of a tree.",
     ),
@@ -94,7 +94,7 @@ CHECKS = {
     "C09": dict(
         technique="runtime trace check: the sequence x, f(x), ..., f^6(x) of real format_code applications is inspected for a fixed point by the fifth application and for revisited texts; the inner fixpoint loop is observed through H-rule",
         category="exploration",
-        text="Repository examples, the construct zoo in several positions, 15 hand-written antagonistic inputs (if/else orientation vs early return vs redundant else, literal vs comprehension forms, blank-line rules vs black, import rules) and random concatenations of three of them, and standard-library files are each formatted six times in a row under 7 option vectors; x5 must equal x6 and no text may reappear after it was left. The histogram of first fixed indices and the number of inner _multi_run_fixes rounds are evidence.",
+        text="Repository examples, the construct zoo in several positions, 15 hand-written antagonistic inputs (if/else orientation vs early return vs redundant else, literal vs comprehension forms, blank-line rules vs black, import rules) and random concatenations of three of them, eight modules whose nested call statements end just below and above the line limit (60 / 79 / 100 / 120 columns, 1-12 blocks deep, formatted with that limit), and standard-library files are each formatted six times in a row under 7 option vectors; x5 must equal x6 and no text may reappear after it was left. The histogram of first fixed indices and the number of inner _multi_run_fixes rounds are evidence.",
         design_ref="DESIGN.md §4 C09",
         note="Bounded progress restated from the statement: fixed point within five applications (the tool's MAX_MODULE_PASSES); includes branch pairs for the if/else orientation heuristic and a module with more sites than 5 x 25 passes of a one-site-per-pass rule.",
     ),
@@ -122,7 +122,7 @@ CHECKS = {
     "C07": dict(
         technique="runtime post-condition monitor with two independent extractors: the module surface of the input (ast, the statement's own list) must be a subset of the names bound in the same scopes of format_code(safe=True)'s output (symtable, weakest reading); a lost name is attributed to the pipeline step that dropped it",
         category="exploration",
-        text="5 hand-written untidy modules (unused / camelCase / private / duplicate / static / self-less definitions, class attributes in every style, `_` and dunder assignments, starred and chained targets, conditional definitions), 220 (1500) generated untidy programs, repository examples, the construct zoo and standard-library files go through format_code(safe=True) (plus format_file(safe=True) and the CLI --safe on a sample); ~3.5k surface names per quick run are checked.",
+        text="5 hand-written untidy modules (unused / camelCase / private / duplicate / static / self-less definitions, class attributes in every style, `_` and dunder assignments, starred and chained targets, conditional definitions), 220 (1500) generated untidy programs, repository examples, the construct zoo and standard-library files go through format_code(safe=True), every second one right after an unsafe call on the same text in the same process (plus format_file(safe=True) and the CLI --safe on a sample); among the hand-written modules are six with a statement nothing gets past (raise SystemExit, assert False, while True, a raise in a class body) followed by more of the surface; ~3.5k surface names per quick run are checked.",
         design_ref="DESIGN.md §4 C07",
         note="Imports, loop and with targets are not surface; 'still defined' = bound in any way in the corresponding scope (so `x = f()` turned into `with f() as x:` is accepted).",
     ),
@@ -136,7 +136,7 @@ CHECKS = {
     "C19": dict(
         technique="runtime differential execution + bytecode monitor: every naming rule is applied alone and inside format_code traces to programs with adversarial identifiers; both versions are executed (every binding printed) and the compiled code objects are compared up to a per-namespace bijective renaming (dis)",
         category="exploration",
-        text="Generated programs bind names drawn from one word's camelCase / snake_case / Capitalised / UPPER / underscore variants, builtins, soft keywords and pyrefact's generated-name prefixes in 14 binding forms (assignment, augmented, def with keyword use, class and attribute, for / with / import-as / except-as targets, global, nonlocal, comprehension, del, lambda, walrus); half the programs give each form names of its own, half reuse names across forms; 12 hand-written collision probes put the would-be new name (an existing local, a builtin, an import, a sibling method, a keyword) beside the name to be renamed; plus the untidy idiom programs of C02. For the 10 renaming rules alone and every text-changing step of format_code: (1) stdout / exception class of both versions must agree; (2) when only identifiers changed, the instruction streams of all code objects must be equal up to a bijection per namespace, consistent between closures and globals, and no new name may be a keyword or builtin.",
+        text="Generated programs bind names drawn from one word's camelCase / snake_case / Capitalised / UPPER / underscore variants, builtins, soft keywords and pyrefact's generated-name prefixes in 14 binding forms (assignment, augmented, def with keyword use, class and attribute, for / with / import-as / except-as targets, global, nonlocal, comprehension, del, lambda, walrus); half the programs give each form names of its own, half reuse names across forms; 12 hand-written collision probes put the would-be new name (an existing local, a builtin, an import, a sibling method, a keyword) beside the name to be renamed; plus the untidy idiom programs of C02, plus ~300 of these programs with `# pyrefact: ignore` on one line (a renaming that cannot touch a line must leave the binding alone). For the 10 renaming rules alone and every text-changing step of format_code: (1) stdout / exception class of both versions must agree; (2) when only identifiers changed, the instruction streams of all code objects must be equal up to a bijection per namespace, consistent between closures and globals, and no new name may be a keyword or builtin.",
         design_ref="DESIGN.md §4 C19",
         note="Programs are closed and deterministic; attribute renames are observed through execution (getattr / keyword use), not statically.",
     ),
